@@ -67,6 +67,11 @@ def loadSnapshot : List String := ["rebuild", "ownlog", "canappend", "verify", "
 happen under one hold of `muSubs` (the first `Unlock` in the text is the error path after `Subscribe`) -/
 def connect : List String := ["lock", "subscribe", "unlock"]
 
+/-- `oneonone.Connect`, the life of the per-peer channel: its context derives from the channels' own (not
+from the caller's: every store of the instance shares the channel), the subscription is made under
+it, and the subscription is closed when the monitor ends (F50) -/
+def connectCtx : List String := ["chanctx", "subscribe", "leave"]
+
 /-- `kvIndex.UpdateIndex` / `documentIndex.UpdateIndex` (`Model/ViewRace.lean`, `locked := true`): the
 log is copied under the index lock. -/
 def updateIndex : List String := ["lock", "copy"]
